@@ -17,8 +17,11 @@ deriving instance DecidableEq for Except
 
 /-! ## tables re-read from the running code on every run -/
 
-/-- the escape set probed from the running `glob_to_regex` is the one in the model -/
-theorem escape_table_current : IB.Generated.escapeSet = escapeChars := by decide
+/- NOT demanded: `IB.Generated.escapeSet = escapeChars`. A harmless additional escape in the code (say `\#`,
+   which the regex crate reads as the literal `#`) must not break the check: what the translation needs is
+   `EscOK` (every metacharacter is escaped, every escaped character may be escaped), demanded of the PROBED set
+   in `escape_table_covers_meta`; the driver answers `GLOB2RE` with `globToRegexWith` on the probed set and head,
+   the function `glob_regex_correct_generated` / `expand_exact_generated` are about. -/
 
 /-- no ASCII character (other than the wildcards) is translated to anything but `c` or `\c` -/
 theorem escape_table_no_odd : IB.Generated.escapeOdd = [] := by decide
@@ -38,7 +41,16 @@ theorem escape_table_covers_meta : EscOK IB.Generated.escapeSet := by
     exact key c hm' h1 h2
   · decide
 
-theorem escapeChars_ok : EscOK escapeChars := escape_table_current ▸ escape_table_covers_meta
+/-- the escape set written in the model (the one in the source text today) is fine as well -/
+theorem escapeChars_ok : EscOK escapeChars := by
+  constructor
+  · intro c hm h1 h2
+    have hm' : c ∈ ['\\', '.', '+', '*', '?', '(', ')', '|', '[', ']', '{', '}', '^', '$'] := by
+      simpa [isMeta] using hm
+    have key : ∀ d ∈ ['\\', '.', '+', '*', '?', '(', ')', '|', '[', ']', '{', '}', '^', '$'],
+        d ≠ '*' → d ≠ '?' → d ∈ escapeChars := by decide
+    exact key c hm' h1 h2
+  · decide
 
 /-! ## the reference matcher is the documented syntax -/
 
@@ -55,11 +67,59 @@ example : Matches (tokenize "a/**/b*.c?".toList) "a/x/y/bz.cd".toList := by
 example : ¬ Matches (tokenize "a/*/b".toList) "a/x/y/b".toList := by
   rw [← globMatch_iff_documented]; decide +kernel
 
-/-- reading of the prose fixed here (and by the property statement "`**` matches across segments"): `**` is
-    "any text", the `/` around it are ordinary characters — so `a/**/b` does not accept `a/b` (the module doc's
-    "zero or more path segments" could be read otherwise; the code, the model and the oracle agree on this one) -/
-example : globMatch "a/**/b".toList "a/b".toList = false ∧ globMatch "a/**/b".toList "a//b".toList = true ∧
-    globMatch "a/**/b".toList "a/x/y/b".toList = true := by decide +kernel
+/-! ### how `**` is read — and what the doc comment's "zero or more path segments" does and does not promise
+
+The property says "`**` matches across segments"; the doc comment of `expand_cloud_glob` (readers.rs) says
+"`**` matches zero or more path segments"; the doc comment of `glob_to_regex` says "`**` becomes `.*` (match
+anything including path separators)". The reference fixes: **`**` stands for ANY text** (empty, part of a
+segment, several segments), and the characters around it — also `/` — stand for themselves. Consequences,
+proved below for all keys:
+
+* whatever the doc comment promises under its literal reading is delivered: put zero or more whole path
+  segments (joined by `/`) in the place of `**` and the key is accepted (`dstar_accepts_whole_segments`);
+* `**` accepts more than whole segments (`a**b` accepts `axyb`), which the property's wording ("across
+  segments") covers and the doc comment's does not mention;
+* the `/` on either side of `**` are NOT absorbed: `a/**/b` accepts exactly the keys `a/` … `/b`, hence `a//b`
+  (zero segments between the two separators) but not `a/b` (`dstar_slashes_are_literal`, `dstar_not_globstar`).
+  Tools such as gitignore/globset give `/**/` the extra meaning "or a single `/`"; neither the property
+  statement nor the doc comment promises that convention, and `glob_to_regex`'s own doc comment excludes it.
+  It is therefore recorded as a wording ambiguity of the doc comment, not as a defect: the code, the model,
+  the harness oracle and the property statement agree on the reading above. -/
+
+/-- `**` between two literal (wildcard-free) texts: the key is the first text, ANY text, the second text -/
+theorem dstar_any_text (a b k : Str) (ha : ∀ c ∈ a, isWild c = false) (hb : ∀ c ∈ b, isWild c = false) :
+    globMatch (a ++ '*' :: '*' :: b) k = true ↔ ∃ m, k = a ++ m ++ b := by
+  rw [globMatch_lit_append a _ k ha]
+  constructor
+  · rintro ⟨r, rfl, hr⟩
+    obtain ⟨m, r', rfl, hr'⟩ := (globMatch_dstar b r).mp hr
+    rw [globMatch_literal b r' hb] at hr'
+    subst hr'
+    exact ⟨m, by simp⟩
+  · rintro ⟨m, rfl⟩
+    refine ⟨m ++ b, by simp, (globMatch_dstar b _).mpr ⟨m, b, rfl, (globMatch_literal b b hb).mpr rfl⟩⟩
+
+/-- the doc comment's sentence, literally: zero or more whole path segments in the place of `**` are accepted
+    (`segs = []`: nothing at all stands there) -/
+theorem dstar_accepts_whole_segments (a b : Str) (segs : List Str)
+    (ha : ∀ c ∈ a, isWild c = false) (hb : ∀ c ∈ b, isWild c = false) :
+    globMatch (a ++ '*' :: '*' :: b) (a ++ (['/'].intercalate segs) ++ b) = true :=
+  (dstar_any_text a b _ ha hb).mpr ⟨_, rfl⟩
+
+example : (['/'].intercalate ["x".toList, "y".toList] : Str) = "x/y".toList := by decide +kernel
+
+/-- the separators around `**` stand for themselves: `a/**/b` accepts exactly `a/` ++ anything ++ `/b` -/
+theorem dstar_slashes_are_literal (k : Str) :
+    globMatch ['a', '/', '*', '*', '/', 'b'] k = true ↔ ∃ m, k = ['a', '/'] ++ m ++ ['/', 'b'] :=
+  dstar_any_text ['a', '/'] ['/', 'b'] k (by decide) (by decide)
+
+/-- … so the gitignore-style reading ("`a/**/b` also matches `a/b`") is NOT what is implemented or specified:
+    `a/b` is rejected, `a//b`, `a/x/b`, `a/x/y/b` are accepted (witnesses; the harness corpus runs the same four
+    keys through the real `expand_cloud_glob`) -/
+theorem dstar_not_globstar :
+    globMatch "a/**/b".toList "a/b".toList = false ∧ globMatch "a/**/b".toList "a//b".toList = true ∧
+    globMatch "a/**/b".toList "a/x/b".toList = true ∧ globMatch "a/**/b".toList "a/x/y/b".toList = true ∧
+    globMatch "a**b".toList "axyb".toList = true := by decide +kernel
 
 /-- the one ambiguity of the prose — how to read a run of three or more stars — is harmless: `**` absorbs
     a neighbouring `*` on either side, so every way of cutting `***…` into `*`/`**` tokens accepts the
@@ -214,15 +274,31 @@ example : literalPrefix "logs/2024-*/x".toList = some "logs/2024-".toList := by 
 example : literalPrefix "*.jsonl".toList = none := by decide +kernel
 example : literalPrefix "a/b".toList = some "a/b".toList := by decide +kernel
 
+/-- **listing_never_hides**: `expand_cloud_glob` always reaches its one `list_objects` call (the regex always
+    compiles), the argument is the literal prefix, and a store that honours the prefix still returns every
+    key the documented syntax accepts. (The harness records the prefix the store really received and checks
+    `prefix_sound` on THAT value with its own reference matcher.) -/
+theorem listing_never_hides (keys : List Str) (pat : Str) :
+    listedPrefix globToRegex pat = some (literalPrefix pat) ∧
+    ∀ k ∈ keys, globMatch pat k = true → k ∈ listKeys keys (literalPrefix pat) := by
+  constructor
+  · unfold listedPrefix globToRegex
+    rw [parse_globToRegexWith escapeChars escapeChars_ok pat]
+    rfl
+  · intro k hk hm
+    cases hp : literalPrefix pat with
+    | none => exact hk
+    | some p => exact List.mem_filter.mpr ⟨hk, prefix_sound pat k p hp hm⟩
+
 /-! ## expansion: exactly the matching keys, sorted -/
 
-/-- **expand_exact**: `expand_cloud_glob` never fails and returns the sorted list of exactly those keys
-    of the bucket that the documented syntax accepts (the prefix listing drops nothing) -/
-theorem expand_exact (keys : List Str) (pat : Str) :
-    expandGlob keys pat = .ok (sortKeys (keys.filter (fun k => globMatch pat k))) := by
-  have hparse := parse_globToRegexWith escapeChars escapeChars_ok pat
-  unfold expandGlob expandWith
-  unfold globToRegex
+/-- `expand_cloud_glob` with ANY escape set that satisfies `EscOK`: never fails and returns the sorted list of
+    exactly those keys of the bucket that the documented syntax accepts (the prefix listing drops nothing) -/
+theorem expand_exact_with (esc : List Char) (he : EscOK esc) (keys : List Str) (pat : Str) :
+    expandWith (globToRegexWith esc ['(', '?', 's', ')', '^']) keys pat =
+      .ok (sortKeys (keys.filter (fun k => globMatch pat k))) := by
+  have hparse := parse_globToRegexWith esc he pat
+  unfold expandWith
   rw [hparse]
   simp only
   congr 2
@@ -239,6 +315,18 @@ theorem expand_exact (keys : List Str) (pat : Str) :
     cases hm : globMatch pat k with
     | false => rfl
     | true => simp [prefix_sound pat k p hp hm]
+
+/-- **expand_exact**: the model's `expand_cloud_glob` (escape set as in today's source) … -/
+theorem expand_exact (keys : List Str) (pat : Str) :
+    expandGlob keys pat = .ok (sortKeys (keys.filter (fun k => globMatch pat k))) :=
+  expand_exact_with escapeChars escapeChars_ok keys pat
+
+/-- … and the same for the escape set and head PROBED from the running code on this run -/
+theorem expand_exact_generated (keys : List Str) (pat : Str) :
+    expandWith (globToRegexWith IB.Generated.escapeSet IB.Generated.regexHead) keys pat =
+      .ok (sortKeys (keys.filter (fun k => globMatch pat k))) := by
+  rw [regex_head_current]
+  exact expand_exact_with _ escape_table_covers_meta keys pat
 
 /-- the result is sorted in Rust `String` order … -/
 theorem expand_sorted (keys ks : List Str) (pat : Str) (h : expandGlob keys pat = .ok ks) :
@@ -268,6 +356,25 @@ theorem expand_strictly_sorted (keys ks : List Str) (pat : Str) (hk : keys.Nodup
   have hs := expand_sorted keys ks pat h
   have hn : ks.Nodup := (expand_perm keys ks pat h).nodup_iff.mpr (hk.sublist List.filter_sublist)
   exact (hs.and hn).imp (fun h => h)
+
+/-- **the model's key order IS Rust's `String` order**: `Vec<String>::sort` compares the UTF-8 bytes
+    lexicographically; the model compares scalar values; the two agree on all strings (UTF-8 is order
+    preserving — unlike UTF-16, where U+E000 sorts after U+10000) -/
+theorem strLe_is_utf8_byte_order (a b : Str) : strLe a b = bytesLe (utf8s a) (utf8s b) :=
+  strLe_eq_bytesLe a b
+
+/-- table obligation: the model's `utf8` is the encoder of the running std on every sampled scalar value
+    (all encoded-length boundaries ±1, the surrogate gap, a spread over the whole range) -/
+theorem utf8_table_current : ∀ r ∈ IB.Generated.utf8Samples, utf8 (Char.ofNat r.1) = r.2 := by decide +kernel
+
+/-- … and Lean's own encoder on the boundary values (witnesses) -/
+example : ([0, 0x7f, 0x80, 0x7ff, 0x800, 0xd7ff, 0xe000, 0xffff, 0x10000, 0x10ffff].map Char.ofNat).all
+    (fun c => utf8 c == (String.utf8EncodeChar c).map UInt8.toNat) = true := by decide +kernel
+
+/-- the expansion is sorted in byte order -/
+theorem expand_sorted_bytes (keys ks : List Str) (pat : Str) (h : expandGlob keys pat = .ok ks) :
+    ks.Pairwise (fun a b => bytesLe (utf8s a) (utf8s b) = true) :=
+  (expand_sorted keys ks pat h).imp (fun h => by rwa [← strLe_is_utf8_byte_order])
 
 /-- the sorted list is unique: two sorted permutations of the same keys are equal, so "sorted and exactly
     the matching keys" determines the answer -/
@@ -353,10 +460,46 @@ structure Lawful (x : Ext R β) : Prop where
       `{ [ " - 0-9 t f n`; an empty object has no signature) -/
   magic_plain : ∀ rs, x.magic (x.enc .plain (jsonl x rs)) = none
 
-/-- the writer chooses the codec exactly as the reader's extension detection does, for EVERY key
-    (case variants, dot-files, keys whose directories look like archives, keys without a file name) -/
-theorem writer_agrees_with_reader (key : Str) : writerCodec key = (extCodec key).getD .plain := by
-  unfold writerCodec extCodec
+/-! ### codec choice: the writer's `ends_with` chain, the reader's registry, the running code's table -/
+
+/-- table obligation (re-checked on every run): the registry the model's reader consults is the one the
+    RUNNING code registers — `IB.Generated.codecTable` is dumped by `c10.rs` through
+    `compression::verif_codec_table()`: names, extensions and their order -/
+theorem registry_current : registryOfTable IB.Generated.codecTable = some registry := by decide
+
+/-- table obligation: the hard-coded chain of `write_cloud_jsonl_vec` lists the same codecs with the same
+    extensions in the same order as the running registry (a codec or extension registered later, or
+    removed, breaks this until the chain follows) -/
+theorem writer_chain_is_table : registryOfTable IB.Generated.codecTable = some writerChain := by decide
+
+/-- the transliterated `if / else if` chain is "first row of `writerChain` one of whose extensions is a suffix
+    of the lower-cased key" -/
+theorem writer_chain_as_data (key : Str) : writerCodec key = (extCodecWith writerChain key).getD .plain := by
+  unfold writerCodec extCodecWith writerChain
+  generalize lower key = s
+  simp only [List.find?, List.any, Bool.or_false]
+  cases endsWith s ['.', 'g', 'z'] <;> cases endsWith s ['.', 'g', 'z', 'i', 'p'] <;>
+  cases endsWith s ['.', 'z', 's', 't'] <;> cases endsWith s ['.', 'z', 's', 't', 'd'] <;>
+  cases endsWith s ['.', 'b', 'z', '2'] <;> cases endsWith s ['.', 'b', 'z', 'i', 'p', '2'] <;>
+  cases endsWith s ['.', 'x', 'z'] <;> rfl
+
+/-- **writer_agrees_with_reader**: the writer (the `ends_with` chain of the current code) chooses the codec
+    exactly as the reader's extension detection does, for EVERY key (case variants, dot-files, keys whose
+    directories look like archives, keys without a file name) — for whatever registry the running code dumps,
+    as long as the two table obligations above hold -/
+theorem writer_agrees_with_reader_generated (reg : List (Codec × List Str))
+    (hreg : registryOfTable IB.Generated.codecTable = some reg) (key : Str) :
+    writerCodec key = (extCodecWith reg key).getD .plain := by
+  have : reg = writerChain := Option.some.inj (hreg.symm.trans writer_chain_is_table)
+  rw [this]; exact writer_chain_as_data key
+
+theorem writer_agrees_with_reader (key : Str) : writerCodec key = (extCodec key).getD .plain :=
+  writer_agrees_with_reader_generated registry registry_current key
+
+/-- the formulation used before the chain was transliterated ("the text after the last `.` of the lower-cased
+    key names the codec") agrees with the reader too … -/
+theorem lastDot_agrees_with_reader (key : Str) : writerCodecByLastDot key = (extCodec key).getD .plain := by
+  unfold writerCodecByLastDot extCodec extCodecWith
   generalize lower key = s
   have iff := fun e (he : '.' ∉ e) => endsWith_dot_iff s e he
   cases h : rsplitDotExt s with
@@ -385,6 +528,17 @@ theorem writer_agrees_with_reader (key : Str) : writerCodec key = (extCodec key)
     by_cases h3 : e = ['z', 's', 't'] <;> by_cases h4 : e = ['z', 's', 't', 'd'] <;>
     by_cases h5 : e = ['b', 'z', '2'] <;> by_cases h6 : e = ['b', 'z', 'i', 'p', '2'] <;>
     by_cases h7 : e = ['x', 'z'] <;> simp_all
+
+/-- … hence it is the same function as the transliterated chain (so statements proved about either hold
+    of the code's) -/
+theorem writerCodec_eq_lastDot (key : Str) : writerCodec key = writerCodecByLastDot key := by
+  rw [writer_agrees_with_reader, lastDot_agrees_with_reader]
+
+/-- what a chain that tests the RAW key in one alternative would do (the second alternative of the bzip2
+    branch, `key.ends_with(".bzip2")`): it disagrees with the reader on an upper-case key — the reason every
+    extension is exercised in upper and mixed case by the harness -/
+example : writerCodec "part-0.BZIP2".toList = .bzip2 ∧ extCodec "part-0.BZIP2".toList = some .bzip2 ∧
+    endsWith "part-0.BZIP2".toList ".bzip2".toList = false := by decide +kernel
 
 /-- the reader's text layer inverts the writer's -/
 theorem parseJsonl_jsonl (x : Ext R β) (hx : Lawful x) (rs : List R) : parseJsonl x (jsonl x rs) = some rs := by
@@ -544,6 +698,37 @@ example : readObj toyExt (writeObj toyExt [] "dir/.gz".toList [3, 0, 1]) "dir/.g
 
 example : readObj toyExt (writeObj toyExt [] "dir/.gz".toList [3, 0, 1]) "dir/.gz".toList = .ok [3, 0, 1] := by
   decide +kernel
+
+/-- the serialiser/codec instance the DRIVER executes the model with (`Model/CloudGlob.lean::wireExt`, records
+    = the harness's `r<hex>` tokens) satisfies the hypotheses too: the correspondence check runs an instance
+    the round-trip theorems apply to -/
+theorem wireExt_lawful : Lawful wireExt where
+  ser_no_nl r := by
+    intro h
+    simp only [wireExt, List.mem_cons] at h
+    rcases h with h | h
+    · revert h; decide
+    · exact (hex_not_ctl _ (List.all_eq_true.mp r.ok _ h)).1 rfl
+  ser_no_cr r := by
+    simp only [wireExt]
+    intro h
+    have hm : '\r' ∈ 'r' :: r.hex := List.mem_of_getLast? h
+    rcases List.mem_cons.mp hm with h | h
+    · revert h; decide
+    · exact (hex_not_ctl _ (List.all_eq_true.mp r.ok _ h)).2 rfl
+  ser_not_blank r := by
+    have : isWhite 'r' = false := by decide +kernel
+    simp [wireExt, blank, this]
+  de_ser r := by
+    simp only [wireExt, r.ok, dite_true]
+  dec_enc c t := by
+    cases c <;> simp [wireExt, wireText_toNat, codecTag]
+  magic_plain rs := wire_magic_plain _
+
+/-- so every `CLOUDJSONL` answer of the driver is an instance of `cloud_roundtrip` -/
+theorem driver_roundtrip (s : Store (List Nat)) (key : Str) (rs : List RecTok) :
+    readObj wireExt (writeObj wireExt s key rs) key = .ok rs :=
+  cloud_roundtrip wireExt wireExt_lawful s key rs
 
 /-- non-vacuity of `glob_read_roundtrip`: distinct keys, a content function -/
 example : ([("b.gz".toList, [1, 2]), ("a".toList, [0])].map (·.1)).Nodup ∧
